@@ -38,7 +38,28 @@ var ownerExempt = map[string]map[string]string{
 // unbound resolves the synthetic wrapper of a method value (r.run) to the
 // method itself.
 func unbound(f *ssa.Function) *ssa.Function {
-	if f == nil || !strings.Contains(f.Synthetic, "bound method wrapper") {
+	if f == nil {
+		return f
+	}
+	if f.Parent() != nil && f.Synthetic == "" && len(f.Blocks) == 1 {
+		// func() { g(args) }: a thin literal around one call starts g
+		var only *ssa.Function
+		n := 0
+		for _, in := range f.Blocks[0].Instrs {
+			switch x := in.(type) {
+			case *ssa.Call:
+				n++
+				only = x.Common().StaticCallee()
+			case *ssa.Store, *ssa.Send, *ssa.Go, *ssa.Defer, *ssa.MapUpdate, *ssa.Select, *ssa.Panic:
+				n = 99
+			}
+		}
+		if n == 1 && only != nil {
+			return unbound(only)
+		}
+		return f
+	}
+	if !strings.Contains(f.Synthetic, "bound method wrapper") {
 		return f
 	}
 	for _, b := range f.Blocks {
